@@ -207,4 +207,288 @@ theorem evals_mono (fns : List Fn) {n m : Nat} (h : n ≤ m) : Evals.le (evals f
   | refl => exact Evals.le_refl _
   | step _ ih => exact Evals.le_trans ih (evals_le_succ fns _)
 
+/-! ## Typing of the closed scalar sub-fragment and progress -/
+
+inductive STy | int (w : W) | bool
+  deriving DecidableEq
+
+def isShift : BinOp → Bool
+  | .shl | .shr => true
+  | _ => false
+
+def isBitwise : BinOp → Bool
+  | .band | .bor | .bxor => true
+  | _ => false
+
+/-- typing of the closed scalar sub-fragment: literals, arithmetic / bitwise / shift operators, comparisons,
+`&& || !`, widening casts -/
+def tyE : Expr → Option STy
+  | .lit w n => if n ≤ w.max then some (.int w) else none
+  | .bool _ => some .bool
+  | .bin op a b =>
+    match tyE a, tyE b with
+    | some (.int w), some (.int w') =>
+      if isShift op then (if w' = .u64 then some (.int w) else none)
+      else if w = w' then some (.int w) else none
+    | some .bool, some .bool => if isBitwise op then some .bool else none
+    | _, _ => none
+  | .cmp op a b =>
+    match tyE a, tyE b with
+    | some (.int w), some (.int w') => if w = w' then some .bool else none
+    | some .bool, some .bool => if op = .eq ∨ op = .ne then some .bool else none
+    | _, _ => none
+  | .land a b | .lor a b =>
+    match tyE a, tyE b with
+    | some .bool, some .bool => some .bool
+    | _, _ => none
+  | .not a => tyE a
+  | .cast w a =>
+    match tyE a with
+    | some (.int w') => if w'.bits ≤ w.bits then some (.int w) else none
+    | _ => none
+  | _ => none
+
+
+def hasTy : Val → STy → Prop
+  | .int w _, .int w' => w = w'
+  | .bool _, .bool => True
+  | _, _ => False
+
+/-- results a well-typed closed scalar expression may have in the prescriptive semantics (`skip = 0`):
+a value of its type with the state unchanged, an arithmetic revert with the logs unchanged, or out of fuel -/
+def GoodRes (s : St) (t : STy) : Res Val → Prop
+  | .ok v s' => hasTy v t ∧ s' = s
+  | .fail (.revert 0) l => l = s.logs
+  | .oof => True
+  | _ => False
+
+theorem bind_good {s : St} {ta t : STy} {m : Res Val} {f : Val → St → Res Val}
+    (hm : GoodRes s ta m) (hf : ∀ v, hasTy v ta → GoodRes s t (f v s)) : GoodRes s t (m.bind f) := by
+  cases m with
+  | ok v s' => obtain ⟨hv, hs⟩ := hm; subst hs; exact hf v hv
+  | fail f' l =>
+    cases f' with
+    | revert c => cases c with
+      | zero => exact hm
+      | succ c => exact hm.elim
+    | _ => exact hm.elim
+  | oof => trivial
+  | _ => exact hm.elim
+
+theorem int_of_hasTy {v : Val} {w : W} (h : hasTy v (.int w)) : ∃ n, v = .int w n := by
+  cases v with
+  | int w' n => exact ⟨n, by simp only [hasTy] at h; rw [h]⟩
+  | _ => exact h.elim
+
+theorem bool_of_hasTy {v : Val} (h : hasTy v .bool) : ∃ b, v = .bool b := by
+  cases v with
+  | bool b => exact ⟨b, rfl⟩
+  | _ => exact h.elim
+
+theorem binVals_int_good (op : BinOp) (w w' : W) (x y : Nat) (s : St) (hs : s.skip = 0)
+    (hty : if isShift op then w' = .u64 else w = w') :
+    GoodRes s (.int w) (binVals op (.int w x) (.int w' y) s) := by
+  simp only [binVals]
+  have hshift : (op = .shl ∨ op = .shr) ↔ isShift op = true := by cases op <;> simp [isShift]
+  by_cases hsh : isShift op = true
+  · simp only [hsh, if_true] at hty
+    have h1 : ¬ ((op = .shl ∨ op = .shr) ∧ w' ≠ .u64) := fun h => h.2 hty
+    have h2 : ¬ (¬ (op = .shl ∨ op = .shr) ∧ w ≠ w') := fun h => h.1 (hshift.mpr hsh)
+    simp only [h1, h2, if_false]
+    cases evalBin op w x y with
+    | some r => exact ⟨rfl, rfl⟩
+    | none => simp only [hs, Nat.lt_irrefl, and_false, if_false, failS]; rfl
+  · have hsh' : isShift op = false := by cases h : isShift op <;> simp_all
+    simp only [hsh', Bool.false_eq_true, if_false] at hty
+    have h1 : ¬ ((op = .shl ∨ op = .shr) ∧ w' ≠ .u64) := fun h => hsh (hshift.mp h.1)
+    have h2 : ¬ (¬ (op = .shl ∨ op = .shr) ∧ w ≠ w') := fun h => h.2 hty
+    simp only [h1, h2, if_false]
+    cases evalBin op w x y with
+    | some r => exact ⟨rfl, rfl⟩
+    | none => simp only [hs, Nat.lt_irrefl, and_false, if_false, failS]; rfl
+
+
+theorem evals_e_succ (fns : List Fn) (n : Nat) :
+    (evals fns (n + 1)).e = stepE fns (evals fns n).e (evals fns n).es (evals fns n).b (evals fns n).arms := rfl
+
+/-- **Progress for the closed scalar fragment.** A well-typed expression built from literals, arithmetic /
+bitwise / shift operators, comparisons, `&& || !` and widening casts never gets `stuck` (nor `unsupported`,
+nor a control signal): at any fuel it yields a value of its type, an arithmetic revert, or runs out of fuel;
+logs and environment are untouched. -/
+theorem scalar_good (fns : List Fn) : ∀ (n : Nat) (e : Expr) (t : STy) (s : St), s.skip = 0 → tyE e = some t →
+    GoodRes s t ((evals fns n).e e s)
+  | 0, _, _, _, _, _ => trivial
+  | n + 1, e, t, s, hs, ht => by
+    have ih := scalar_good fns n
+    rw [evals_e_succ]
+    cases e with
+    | lit w k =>
+      simp only [tyE] at ht
+      split at ht
+      · rename_i hk
+        simp only [Option.some.injEq] at ht; subst ht
+        simp only [stepE, hk, if_true]; exact ⟨rfl, rfl⟩
+      · exact absurd ht (by simp)
+    | bool b =>
+      simp only [tyE, Option.some.injEq] at ht; subst ht
+      simp only [stepE]; exact ⟨trivial, rfl⟩
+    | bin op a b =>
+      simp only [tyE] at ht
+      cases hta : tyE a with
+      | none => rw [hta] at ht; simp at ht
+      | some ta =>
+        cases htb : tyE b with
+        | none => rw [hta, htb] at ht; cases ta <;> simp at ht
+        | some tb =>
+          rw [hta, htb] at ht
+          simp only [stepE]
+          refine bind_good (ih a ta s hs hta) fun va hva => bind_good (ih b tb s hs htb) fun vb hvb => ?_
+          cases ta with
+          | int w =>
+            cases tb with
+            | int w' =>
+              obtain ⟨x, rfl⟩ := int_of_hasTy hva
+              obtain ⟨y, rfl⟩ := int_of_hasTy hvb
+              simp only at ht
+              by_cases hsh : isShift op = true
+              · simp only [hsh, if_true] at ht
+                split at ht
+                · rename_i h64
+                  simp only [Option.some.injEq] at ht; subst ht
+                  exact binVals_int_good op w w' x y s hs (by simp [hsh, h64])
+                · exact absurd ht (by simp)
+              · have hsh' : isShift op = false := by cases h : isShift op <;> simp_all
+                simp only [hsh', Bool.false_eq_true, if_false] at ht
+                split at ht
+                · rename_i hww
+                  simp only [Option.some.injEq] at ht; subst ht
+                  exact binVals_int_good op w w' x y s hs (by simp [hsh', hww])
+                · exact absurd ht (by simp)
+            | bool => simp at ht
+          | bool =>
+            cases tb with
+            | int w' => simp at ht
+            | bool =>
+              obtain ⟨x, rfl⟩ := bool_of_hasTy hva
+              obtain ⟨y, rfl⟩ := bool_of_hasTy hvb
+              simp only at ht
+              split at ht
+              · rename_i hb
+                simp only [Option.some.injEq] at ht; subst ht
+                cases op <;> simp [isBitwise] at hb <;> simp only [binVals] <;> exact ⟨trivial, rfl⟩
+              · exact absurd ht (by simp)
+    | cmp op a b =>
+      simp only [tyE] at ht
+      cases hta : tyE a with
+      | none => rw [hta] at ht; simp at ht
+      | some ta =>
+        cases htb : tyE b with
+        | none => rw [hta, htb] at ht; cases ta <;> simp at ht
+        | some tb =>
+          rw [hta, htb] at ht
+          simp only [stepE]
+          refine bind_good (ih a ta s hs hta) fun va hva => bind_good (ih b tb s hs htb) fun vb hvb => ?_
+          cases ta with
+          | int w =>
+            cases tb with
+            | int w' =>
+              obtain ⟨x, rfl⟩ := int_of_hasTy hva
+              obtain ⟨y, rfl⟩ := int_of_hasTy hvb
+              simp only at ht
+              split at ht
+              · rename_i hww
+                simp only [Option.some.injEq] at ht; subst ht
+                simp only [cmpVals, hww, if_true]; exact ⟨trivial, rfl⟩
+              · exact absurd ht (by simp)
+            | bool => simp at ht
+          | bool =>
+            cases tb with
+            | int w' => simp at ht
+            | bool =>
+              obtain ⟨x, rfl⟩ := bool_of_hasTy hva
+              obtain ⟨y, rfl⟩ := bool_of_hasTy hvb
+              simp only at ht
+              split at ht
+              · rename_i hb
+                simp only [Option.some.injEq] at ht; subst ht
+                rcases hb with hb | hb <;> subst hb <;> simp only [cmpVals] <;> exact ⟨trivial, rfl⟩
+              · exact absurd ht (by simp)
+    | land a b =>
+      simp only [tyE] at ht
+      cases hta : tyE a with
+      | none => rw [hta] at ht; simp at ht
+      | some ta =>
+        cases htb : tyE b with
+        | none => rw [hta, htb] at ht; cases ta <;> simp at ht
+        | some tb =>
+          rw [hta, htb] at ht
+          cases ta <;> cases tb <;> simp at ht
+          subst ht
+          simp only [stepE]
+          refine bind_good (ih a .bool s hs hta) fun va hva => ?_
+          obtain ⟨x, rfl⟩ := bool_of_hasTy hva
+          simp only [asBool]
+          cases x
+          · exact ⟨trivial, rfl⟩
+          · simp only [if_true]
+            refine bind_good (ih b .bool s hs htb) fun vb hvb => ?_
+            obtain ⟨y, rfl⟩ := bool_of_hasTy hvb
+            exact ⟨trivial, rfl⟩
+    | lor a b =>
+      simp only [tyE] at ht
+      cases hta : tyE a with
+      | none => rw [hta] at ht; simp at ht
+      | some ta =>
+        cases htb : tyE b with
+        | none => rw [hta, htb] at ht; cases ta <;> simp at ht
+        | some tb =>
+          rw [hta, htb] at ht
+          cases ta <;> cases tb <;> simp at ht
+          subst ht
+          simp only [stepE]
+          refine bind_good (ih a .bool s hs hta) fun va hva => ?_
+          obtain ⟨x, rfl⟩ := bool_of_hasTy hva
+          simp only [asBool]
+          cases x
+          · simp only [Bool.false_eq_true, if_false]
+            refine bind_good (ih b .bool s hs htb) fun vb hvb => ?_
+            obtain ⟨y, rfl⟩ := bool_of_hasTy hvb
+            exact ⟨trivial, rfl⟩
+          · exact ⟨trivial, rfl⟩
+    | not a =>
+      simp only [tyE] at ht
+      simp only [stepE]
+      refine bind_good (ih a t s hs ht) fun va hva => ?_
+      cases t with
+      | int w => obtain ⟨x, rfl⟩ := int_of_hasTy hva; exact ⟨rfl, rfl⟩
+      | bool => obtain ⟨x, rfl⟩ := bool_of_hasTy hva; exact ⟨trivial, rfl⟩
+    | cast w a =>
+      simp only [tyE] at ht
+      cases hta : tyE a with
+      | none => rw [hta] at ht; simp at ht
+      | some ta =>
+        rw [hta] at ht
+        cases ta with
+        | bool => simp at ht
+        | int w' =>
+          simp only at ht
+          split at ht
+          · rename_i hbits
+            simp only [Option.some.injEq] at ht; subst ht
+            simp only [stepE]
+            refine bind_good (ih a (.int w') s hs hta) fun va hva => ?_
+            obtain ⟨x, rfl⟩ := int_of_hasTy hva
+            simp only [castVal, hbits, if_true]; exact ⟨rfl, rfl⟩
+          · exact absurd ht (by simp)
+    | var _ => simp [tyE] at ht
+    | tup _ => simp [tyE] at ht
+    | proj _ _ => simp [tyE] at ht
+    | idx _ _ => simp [tyE] at ht
+    | enm _ _ => simp [tyE] at ht
+    | ite _ _ _ => simp [tyE] at ht
+    | block _ => simp [tyE] at ht
+    | call _ _ => simp [tyE] at ht
+    | mtch _ _ => simp [tyE] at ht
+
+
 end SwayVerif.SwaySem
